@@ -223,10 +223,11 @@ static void famHermite(Rng& r, Ctx& c)
   double pymin = anam->getPymin(), pymax = anam->getPymax(), pzmin = anam->getPzmin(), pzmax = anam->getPzmax();
   double aymin = anam->getAymin(), aymax = anam->getAymax(), azmin = anam->getAzmin(), azmax = anam->getAzmax();
   c.put("bounds(ay,py,pz,az)", jvec(std::vector<double>{aymin, aymax, pymin, pymax, pzmin, pzmax, azmin, azmax}));
-  bool bok = std::isfinite(pymin) && std::isfinite(pymax) && std::isfinite(pzmin) && std::isfinite(pzmax) && pymin < pymax &&
-             pzmin <= pzmax && !FFFF(pymin) && !FFFF(pymax) && !FFFF(pzmin) && !FFFF(pzmax);
-  c.truth("hermite-bounds", "C18:hermite:practical-bounds-invalid", bok, fmt("py [%g,%g] pz [%g,%g]", pymin, pymax, pzmin, pzmax));
+  bool bok = std::isfinite(pymin) && std::isfinite(pymax) && std::isfinite(pzmin) && std::isfinite(pzmax) &&
+             !FFFF(pymin) && !FFFF(pymax) && !FFFF(pzmin) && !FFFF(pzmax);
+  c.truth("hermite-bounds", "C18:hermite:practical-bounds-undefined", bok, fmt("py [%g,%g] pz [%g,%g]", pymin, pymax, pzmin, pzmax));
   if (!bok) return;
+  if (!(pymin < pymax && pzmin <= pzmax)) { c.skip("hermite:degenerate-practical-interval"); return; } // nothing is claimed on a point
   std::string bk = bound ? "bounded" : "unbounded";
 
   // The claim is checked on the intersection of the practical and (when bounds are enforced) the absolute interval:
@@ -328,9 +329,12 @@ static void famHermite(Rng& r, Ctx& c)
       c.skip("hermite-z2y2z:outside-reported-interval");
   }
 
-  // ---- y -> z -> y inside the practical interval
+  // ---- y -> z -> y inside the practical interval. The inverse brackets the root by stepping away from y = 0
+  // ("Look for a first interval in Y containing Z"): it returns the branch nearest to the median, so the identity is only
+  // claimed when the (monotone) practical interval contains y = 0.
   for (int k = 0; k < 25; k++)
   {
+    if (!(vymin <= 0 && vymax >= 0)) { c.skip("hermite-y2z2y:practical-interval-excludes-median"); break; }
     double y = r.uni(vymin + 0.05 * (vymax - vymin), vymax - 0.05 * (vymax - vymin));
     double slope = INFINITY;
     for (double dy : {-0.1, -0.03, 0., 0.03, 0.1})
